@@ -366,6 +366,30 @@ def check_dataset(views, shape, call, st):
                 if b.err is None:
                     ncmp += 1
                     _relate(ob, "/after-renormalising-shift_common", out[c], b, call, views, shape, c, d, v, True, base_cls, kinds)
+    # the SAME cube object, before and after one of its dimensions is re-encoded in place (shift_common(w)): anything the
+    # cube remembers about the encoding of its dimensions has to follow
+    for d in range(k):
+        if views[d].ndim > 2 or shape[d] < 2:
+            continue
+        for v in range(shape[d]):
+            c = tuple(v if t == d else 0 for t in range(k))
+            if c not in out or out[c].err is not None:
+                continue
+            objs = [mk(views[t], c[t]) for t in range(k)]
+            cube = ccube(objs, shape)
+            first = evaluate(call, lambda: cube)
+            w = (v + 1) % shape[d]
+            try:
+                objs[d].shift_common(w)
+            except Exception:  # noqa  (C06 judges shift_common itself)
+                continue
+            b = evaluate(call, lambda: cube)
+            MON.check(ob + "-no-raise/same-cube-after-shift_common-in-place", first.err is None and b.err is None,
+                      lambda: "the call on the same cube after dimension %d went from common %d to %d %s" % (d, v, w, b.show()),
+                      lambda: case_input(views, shape, c, d, w, True, call), lambda: dict(base_cls, common_kind=kinds[d][v]))
+            if first.err is None and b.err is None:
+                ncmp += 1
+                _relate(ob, "/same-cube-after-shift_common-in-place", first, b, call, views, shape, c, d, w, True, base_cls, kinds)
     return ncmp
 
 
